@@ -206,6 +206,12 @@ class Scenario:
         obj = m['obj']
         if not m.get('subscribed'):
             return
+        if (m.get('peer_term') or m.get('cancelled')) and r < 0.7:
+            # the application has been told that nothing more will come (or has cancelled): asking for more or cancelling
+            # again is its own misuse
+            if self.rng.random() > self.hostile:
+                return
+            self.legal = False
         if r < 0.45:
             n = self.rng.choice([1, 3, 0x7FFFFFFF])
             self.rec.label('requestn', oid, n)
@@ -237,6 +243,10 @@ class Scenario:
             m['done'] = True
             m['cancelled'] = True
         elif m['kind'] == 'rc' and m.get('pub') is not None and m['pub'].subscriber is not None:
+            if m.get('peer_cancelled') and not m.get('pub_done'):
+                if self.rng.random() > self.hostile:
+                    return          # a cancelled publisher emits nothing more
+                self.legal = False
             self.do_pub(oid, m['pub'], m)
             return
         self.rec.settle()
@@ -348,6 +358,10 @@ class Scenario:
             return
         pub = st['app'].get('pub')
         if r < 0.45 and pub is not None:
+            if st.get('cancel_sent') and not st.get('pub_done'):
+                if self.rng.random() > self.hostile:
+                    return          # a cancelled publisher emits nothing more
+                self.legal = False
             self.do_pub(st['oid'], pub, st)
         elif r < 0.65:
             if st.get('cancel_sent') and self.rng.random() > self.hostile:
